@@ -22,6 +22,7 @@ func checkC11(p *Prog, r *Report) {
 	checkKeepPerms(p, r)
 	checkTypeTables(p, r)
 	checkFieldBindings(p, r)
+	checkEncoderCarries(p, r, "C11/WIRE-METADATA", "the sender puts every entry's own metadata on the wire: for every (file type × option subset) the entry encoder emits exactly one record sequence, with length, mtime and mode for every entry and uid/gid/rdev/link target under their options (it never marks a field as 'same as previous': the two ends would have to agree on which entry is the previous one, e.g. across excluded entries and source arguments)")
 	checkTouchUp(p, r)
 	r.Trust("os.Root.Chmod/Chtimes/Lchown, mknodat/mkfifoat semantics; Go fs.FileMode type bits")
 	r.Uncovered("numeric fidelity (2038 truncation of mtime to int32, sub-second parts, umask interplay for new files without -p, id mapping by name); directory times; hard links")
@@ -803,4 +804,16 @@ func checkTouchUp(p *Prog, r *Report) {
 		}
 	})
 	r.Cond(ok2, rule, "Do → touchUpDirs under retouchDirPerms", p.Pos(do.Pos()), "")
+}
+
+// checkEncoderCarries shares the encoder half of C15/W1 with the properties
+// whose behaviour depends on the list carrying each entry's own metadata.
+func checkEncoderCarries(p *Prog, r *Report, rule, text string) {
+	r.Rule(rule, text, 7)
+	w := newWireExtractor(p, r)
+	if w == nil {
+		r.Unk(rule, "entry encoder", "-", "encoder/decoder anchors not found")
+		return
+	}
+	compareSeqs(r, rule, "encoder", allAssignments(false), w.encoderSeqs, func(a entryAssign) string { return specSeq(a, true) })
 }
